@@ -103,3 +103,16 @@ def untraced():
     except Exception:  # noqa: BLE001
         pass
     return contextlib.nullcontext()
+
+
+def concrete(x):
+    """realise a value completely (strings/dicts built from symbolic parts) before it crosses into compiled code"""
+    try:
+        from crosshair.core import deep_realize
+        from crosshair.tracers import is_tracing
+
+        if is_tracing():
+            return deep_realize(x)
+    except Exception:  # noqa: BLE001
+        pass
+    return x
